@@ -55,6 +55,17 @@ impl Availability {
     }
 }
 
+#[cfg(actix_net_verif)]
+impl Availability {
+    pub(crate) fn from_words(words: [u128; 4]) -> Self {
+        Self(words)
+    }
+
+    pub(crate) fn words(&self) -> [u128; 4] {
+        self.0
+    }
+}
+
 #[cfg(test)]
 mod tests {
     use super::*;
